@@ -8,13 +8,14 @@
 EXTENDS FCSBytes, TLC
 VARIABLES stage, scn, out
 vars == <<stage, scn, out>>
-Offsets1 == {0, 7, 58, 4096, 1234567, 10000000, 99999999}
-AFields == {-1} \cup {0, 58, 12345678}                 \* -1: the field is blank
+Offsets1 == {0, 58, 1234567, 10000000, 99999999}
+Offsets2 == {0, 4096, 10000000, 99999999}
+AFields == {-1} \cup {0, 12345678}                 \* -1: the field is blank
 Init == stage = 0 /\ scn = <<>> /\ out = <<>>
 Pick(n, S) == stage = n /\ \E x \in S : scn' = Append(scn, x) /\ stage' = n + 1 /\ UNCHANGED out
 Field(v) == IF v < 0 THEN Spaces(8) ELSE RJust(DigitsOf(v), 8)
 HeaderBytes(s) == VerStr(s[1]) \o Spaces(4) \o Field(s[2]) \o Field(s[3]) \o Field(s[4]) \o Field(s[5]) \o Field(s[6]) \o Field(s[7])
-Next == \/ Pick(0, {"2.0", "3.0", "3.1"}) \/ Pick(1, Offsets1) \/ Pick(2, Offsets1) \/ Pick(3, Offsets1) \/ Pick(4, Offsets1)
+Next == \/ Pick(0, {"2.0", "3.1"}) \/ Pick(1, Offsets1) \/ Pick(2, Offsets1) \/ Pick(3, Offsets2) \/ Pick(4, Offsets2)
         \/ Pick(5, AFields) \/ Pick(6, AFields)
         \/ /\ stage = 7
            /\ LET r == StepHeader(S0(HeaderBytes(scn), <<>>)) IN
